@@ -23,6 +23,8 @@
      CallRandom           fresh := json_c_get_random_seed()
      RetryIfUnset         `while (fresh == -1)` : call again
      CAS c e              __sync_val_compare_and_swap(&c, e, fresh), result discarded
+     CASOnce c d          __sync_{val,bool}_compare_and_swap(&c, reg, reg + d), result ignored,
+                          NOT retried: the update is lost when c no longer holds reg
      StoreFresh c         c := fresh                   (plain write)
      ReadForHash w        the value handed to hashlittle: Shared = a (plain) read of the
                           seed variable; Local = the function's local copy, i.e. the value
@@ -55,6 +57,7 @@ Inductive mop :=
 | CallRandom
 | RetryIfUnset
 | CAS (c : cell) (expected : Z)
+| CASOnce (c : cell) (d : Z)
 | StoreFresh (c : cell)
 | ReadForHash (w : which).
 
@@ -167,6 +170,9 @@ Definition exec (t : nat) (m : cell -> Z) (ri : nat) (th : thread) (op : mop)
   | CAS c e =>
       if m c =? e then (wr m c (fresh th), th, [EvInstall t c (fresh th) true], ri)
       else (m, th, [EvAcc t c true (m c)], ri)
+  | CASOnce c d =>
+      if m c =? reg th then let v := wrap32 (reg th + d) in (wr m c v, th, [EvAcc t c true v], ri)
+      else (m, th, [EvAcc t c true (m c)], ri)
   | StoreFresh c => (wr m c (fresh th), th, [EvInstall t c (fresh th) false], ri)
   | ReadForHash Shared => (m, th, [EvHash t (m Seed); EvAcc t Seed false (m Seed)], ri)
   | ReadForHash Local =>
@@ -278,6 +284,7 @@ Definition cas_seed : list mop :=
 Definition plain_get (n : nat) : list mop := [Load (RC n); Store (RC n) 1].
 Definition plain_put (n : nat) : list mop :=
   [Load (RC n); Store (RC n) (-1); BranchDestroyIfResultZero n].
+Definition casonce_get (n : nat) : list mop := [Load (RC n); CASOnce (RC n) 1].
 Definition reread_put (n : nat) : list mop :=
   [AtomicSub (RC n) 1; Load (RC n); BranchDestroyIfResultZero n].
 Definition local_seed : list mop :=
